@@ -6,7 +6,7 @@ cd /verif
 PROPS=${PROPS:-$(python3 -c "import json;print(' '.join(c['property_id'] for c in json.load(open('MANIFEST.json'))['checks']))")}
 TIER=${TIER:-quick}
 one() {
-  n=$(basename $1); wt=/tmp/seedrun_$n; out=/tmp/seedout_$n
+  n=$(basename $1); wt=/tmp/seedrun_${n}_$RUNID; out=/tmp/seedout_${n}_$RUNID
   rm -rf $wt $out; git -C /repo worktree add -q --detach $wt HEAD 2>/dev/null || { echo "$n: worktree failed"; return; }
   if ! git -C $wt apply /verif/seeded/$n/patch.diff 2>/dev/null; then echo "$n: PATCH DOES NOT APPLY"; git -C /repo worktree remove --force $wt; return; fi
   hits=""
@@ -17,6 +17,6 @@ one() {
   git -C /repo worktree remove --force $wt; rm -rf $out
   echo "$n: ${hits:- MISSED}"
 }
-export -f one; export PROPS TIER
+RUNID=$$; export -f one; export PROPS TIER RUNID
 ls -d ${@:-seeded/*/} | xargs -P 14 -I{} bash -c 'one {}' | sort
 git -C /repo worktree prune
